@@ -137,3 +137,17 @@ Proof.
   split; [vm_compute; reflexivity|]. split; [right; left; reflexivity|].
   vm_compute. intros [H|[]]. discriminate.
 Qed.
+
+(* a Unix directory whose NAME contains backslashes: the '\' -> '/' replacement
+   happens after Rel, so ".." elements appear behind the leading run that the
+   "_.._" rewrite handles (replayed on the real code) *)
+Definition ext_js : path := P ".js".
+Lemma backslash_in_name_escapes_refuted_w :
+  exists outdir outbase entry,
+    is_rooted outbase = true /\ is_rooted entry = true /\
+    let out := entry_out_path outdir default_entry_template outbase entry [] [] ext_js in
+    firstn (List.length (clean_segs outdir)) (clean_segs out) <> clean_segs outdir.
+Proof.
+  exists (P "/w/out/deep"), (P "/w/src"), (P "/w/src/a\..\..\..\b/e.js").
+  split; [reflexivity|]. split; [reflexivity|]. vm_compute. discriminate.
+Qed.
